@@ -1,10 +1,11 @@
 import OjgVerif.Reflect.Driver
 import OjgVerif.Reflect.EncOmit
+import OjgVerif.Reflect.EncOmitAlt
 /-! Driver op of the omit model (C15), layered over `Reflect/Driver.lean` so that the shared driver
 file stays untouched:
 
-* `enco <oj|sen> <dev> <flags> <bytesAs> <createKey> <type> <value>` — the tree `oj` / `sen` describe
-  under ALL options, `OmitNil` and `OmitEmpty` included (`encodeO`); arguments as for `enc`.
+* `enco <oj|sen|alt|pretty> <dev> <flags> <bytesAs> <createKey> <type> <value>` — the tree `oj` / `sen` describe
+  under ALL options, `OmitNil` and `OmitEmpty` included (`encodeO`; `alt`: alt.Decompose, `encodeA`); arguments as for `enc`.
   Answers `panic`, `outside` or the canonical tree. Every other op goes to `handle`. -/
 namespace OjgVerif.Reflect
 open OjgVerif
@@ -15,6 +16,8 @@ def handleEncO (which dev flags bytesAs ck ty val : String) : String :=
     if !typeInFragment t || !valInFragment v then "outside"
     else if which = "oj" then outcome (encodeO .oj d o fuelT 256 t v)
     else if which = "sen" then outcome (encodeO .sen d o fuelT 256 t v)
+    else if which = "alt" then outcome (encodeA d o fuelT 256 t v)
+    else if which = "pretty" then outcome (encodeP d o fuelT 256 t v)
     else "bad-op"
   | _, _, _, _ => "bad-op"
 
